@@ -25,6 +25,8 @@
 (*   resolve  sizes of the answer sets for the poses of the answers        *)
 (*   pgram    the wrapper stack contains a parallelogram coupling (answers  *)
 (*            are re-coupled after the leaf solver ordered them)           *)
+(*   j6_finite  the requested J6 (argument or previous J6) is finite           *)
+(*   huge     the previous vector is of the order of 1e9 turns (soundness only) *)
 (*   fwd_n    distance of the stack's forward / link poses from the model   *)
 (*   twin_shift5  2 * sign5 * offset5 (AU): the wrist twin negates the     *)
 (*            geometric J5                                                 *)
@@ -71,6 +73,14 @@ Complete(c) ==
                 THEN {"C02:answer-set-not-closed"} ELSE {})
           \cup (IF ~c.lim /\ (Len(qs) % 2 = 1 \/ Len(qs) > 8) THEN {"C02:odd-or-too-many-answers"} ELSE {})
 
+\* the 5-DOF solver is complete in J1..J5 as well: originating J1..J5 and its wrist twin (J4 + pi, -J5)
+Complete5(c) ==
+  IF ~(FiveDof(c) /\ c.j6_finite /\ ~c.pgram /\ c.truth.known /\ c.truth.nonsingular /\ c.reach = "yes" /\ ~c.lim /\ c.pose_ok) THEN {}
+  ELSE LET qs == Qs(c) IN
+    (IF ~\E i \in 1..Len(qs) : SameMod5(qs[i], c.truth.q) THEN {"C02:five-dof-originating-configuration-missing"} ELSE {})
+    \cup (IF \E i \in 1..Len(qs) : ~\E k \in 1..Len(qs) : SameMod5(qs[k], Twin(c, qs[i]))
+          THEN {"C02:five-dof-wrist-twin-missing"} ELSE {})
+
 \* ---- C04 continuation ordering ----------------------------------------------------
 Ref(c) == IF c.prev = <<>> THEN c.centres ELSE c.prev
 Cost16(c, q) == (16 - c.w16) * Dist1(q, Ref(c)) + c.w16 * Dist1(q, c.centres)
@@ -93,9 +103,10 @@ Ordered(c) ==
 
 \* ---- C06 5-DOF contract -----------------------------------------------------------
 FiveDofOk(c) ==
-  IF ~FiveDof(c) THEN {}
+  IF ~FiveDof(c) \/ ~c.j6_finite THEN {}      \* (a non-finite J6 request is answered by nothing: Sound demands finite answers)
   ELSE LET qs == Qs(c) IN
     (IF \E i \in 1..Len(c.j6_equal) : ~c.j6_equal[i] THEN {"C06:j6-not-the-callers"} ELSE {})
+    \cup (IF "C01:answer-misses-pose" \in Sound(c) THEN {"C06:tool-point-or-axis-missed"} ELSE {})
     \cup (IF c.truth.known /\ c.truth.nonsingular /\ c.reach = "yes" /\ ~c.lim /\
              ~\E i \in 1..Len(qs) : SameMod5(qs[i], c.truth.q)
           THEN {"C06:originating-j1-j5-missing"} ELSE {})
@@ -105,7 +116,7 @@ FiveDofOk(c) ==
 \* ---- C08 constrained = compliant subset of unconstrained ----------------------------
 Decidable(c, q) == EndDistVec(c.from, c.to, q, N_AU) >= BandLim /\ ~AmbiguousVec(c.from, c.to, N_AU)
 Constrained(c) ==
-  IF ~c.lim THEN {}
+  IF ~c.lim \/ c.huge THEN {}      \* (answers normalised near a previous of ~1e10 rad do not fit the AU integers)
   ELSE LET qs == Qs(c)
            eq(u, v) == IF FiveDof(c) THEN SameMod5(u, v) ELSE SameMod(u, v)
        IN
@@ -130,5 +141,5 @@ ForwardOk(c) ==
   ELSE IF c.pgram THEN {"C16:forward-or-link-poses-differ-from-inner-robot-at-reduced-vector"}
   ELSE {"C09:forward-or-link-poses-differ-from-base-robot-tool"}
 
-Contract(c) == ForwardOk(c) \cup Sound(c) \cup Complete(c) \cup Ordered(c) \cup FiveDofOk(c) \cup Constrained(c) \cup Coupled(c)
+Contract(c) == ForwardOk(c) \cup Complete5(c) \cup Sound(c) \cup Complete(c) \cup Ordered(c) \cup FiveDofOk(c) \cup Constrained(c) \cup Coupled(c)
 =============================================================================
